@@ -19,7 +19,7 @@ Task: make ONE realistic change to the library in {wt} - the kind of edit a main
 
 Deliver three files in {out}/ (create the directory):
  1. patch.diff  - `git -C {wt} diff` of the change (must apply with `git apply` to the unchanged worktree HEAD).
- 2. demo_test.go - a self-contained Go test file whose FIRST line is the comment `// place in: <package directory relative to the repo root, e.g. decoder>`, in that package (or its _test package), with a test name starting with TestDemo, that PASSES on the unchanged code and FAILS with your change (it demonstrates the property violation through the public behaviour: a wrong result, a panic, a data race is not acceptable unless it fails deterministically). Verify both yourself: `git stash` / `git stash pop` or apply/reverse the patch.
+ 2. demo_test.go - a self-contained Go test file whose FIRST line is the comment `// place in: <package directory relative to the repo root, e.g. decoder>`, in that package (or its _test package), with a test name starting with TestDemo, that PASSES on the unchanged code and FAILS with your change (it demonstrates the property violation through the public behaviour: a wrong result, a panic, a data race is not acceptable unless it fails deterministically). Verify both yourself by reversing and re-applying your patch (`git -C {wt} diff > p.diff; git -C {wt} apply -R p.diff; ...; git -C {wt} apply p.diff`). Do NOT use `git stash` (the stash is shared by all worktrees of the repository and other people work in sibling worktrees).
  3. notes.md - the change, why the existing tests do not notice, and exactly what is needed for the breakage (schema, file content, position, calls).
 
 Before you finish: leave the worktree WITH the change applied but WITHOUT demo_test.go in it, confirm the suite passes in that state, and report in your final message: the files changed, one paragraph on what breaks, and what input is needed.""")
